@@ -26,7 +26,7 @@ type assertionSpec struct {
 
 func c15World(store string, mut func(c *fosite.Config)) (*h.World, *fosite.DefaultOpenIDConnectClient) {
 	w := h.NewWorld(h.Spec{Store: store, RefreshScopes: []string{}, Mutate: mut})
-	dc := &fosite.DefaultClient{ID: "jwt-client", RedirectURIs: []string{redirectURI}, GrantTypes: []string{"client_credentials", jwtBearerGrant}, Scopes: []string{"a", "b"}}
+	dc := &fosite.DefaultClient{ID: "jwt-client", RedirectURIs: []string{redirectURI}, GrantTypes: []string{"client_credentials", jwtBearerGrant, "authorization_code", deviceGrant}, Scopes: []string{"a", "b"}}
 	cl := &fosite.DefaultOpenIDConnectClient{DefaultClient: dc, TokenEndpointAuthMethod: "private_key_jwt", TokenEndpointAuthSigningAlgorithm: "RS256",
 		JSONWebKeys: &jose.JSONWebKeySet{Keys: []jose.JSONWebKey{h.PublicJWK(h.RSAKey(1), "kid-1", "RS256"), h.PublicJWK(h.ECKey("P-256"), "kid-ec", "ES256")}}}
 	w.AddClient(cl, "")
@@ -193,9 +193,36 @@ func TestC15_ClientAssertions(t *testing.T) {
 		h.ClockReset()
 		store := rapid.SampledFrom([]string{"mem", "tx"}).Draw(rt, "store")
 		w, _ := c15World(store, nil)
-		present := func(assertion string) *h.TokenResult {
-			return w.Token(url.Values{"grant_type": {"client_credentials"}, "scope": {"a"}, "client_assertion_type": {assertionType}, "client_assertion": {assertion}}, h.Auth{}, h.TokenOpts{})
+		// the same assertion rules hold at every endpoint that authenticates clients
+		presentAt := func(where, assertion string, sendClientID bool) (bool, h.ErrInfo) {
+			form := url.Values{"client_assertion_type": {assertionType}, "client_assertion": {assertion}}
+			if sendClientID {
+				form.Set("client_id", "jwt-client")
+			}
+			switch where {
+			case "par":
+				form.Set("response_type", "code")
+				form.Set("state", "state-0123456789")
+				form.Set("redirect_uri", redirectURI)
+				form.Set("scope", "a")
+				r := w.PAR(form, h.Auth{})
+				return r.RequestURI != "", r.Err
+			case "revoke":
+				form.Set("token", "no-such-token")
+				r := w.Revoke(form, h.Auth{})
+				return r.Err.OK(), r.Err
+			case "device_authorization":
+				form.Set("scope", "a")
+				form.Set("client_id", "jwt-client") // this endpoint requires the parameter
+				r := w.DeviceAuth(form, h.Auth{}, h.Consent{})
+				return r.DeviceCode != "", r.Err
+			}
+			form.Set("grant_type", "client_credentials")
+			form.Set("scope", "a")
+			tr := w.Token(form, h.Auth{}, h.TokenOpts{})
+			return tr.OK() || tr.Access != "", tr.Err
 		}
+		endpoints := []string{"token", "token", "token", "par", "revoke", "device_authorization"}
 		// a history of presentations
 		var log []string
 		type used struct {
@@ -224,12 +251,14 @@ func TestC15_ClientAssertions(t *testing.T) {
 					continue
 				}
 				a := accepted[rapid.IntRange(0, len(accepted)-1).Draw(rt, "which")]
-				tr := present(a.tok)
-				log = append(log, fmt.Sprintf("replay of an accepted assertion (exp in %v) -> %v", a.exp.Sub(h.Now()), tr.Err))
-				shape = append(shape, "replay")
+				where := rapid.SampledFrom(endpoints).Draw(rt, "replayAt")
+				ok, rerr := presentAt(where, a.tok, rapid.Bool().Draw(rt, "replayWithClientID"))
+				log = append(log, fmt.Sprintf("replay of an accepted assertion (exp in %v) at %s -> %v", a.exp.Sub(h.Now()), where, rerr))
+				shape = append(shape, "replay@"+where)
 				nontrivial = true
 				h.Label("replay-same-assertion")
-				if tr.OK() || tr.Access != "" {
+				h.Label("replay@" + where)
+				if ok {
 					h.Violate(rt, "C15/client-assertion/replayed", "an already accepted client assertion was accepted again\n%s", strings.Join(log, "\n"))
 				}
 				continue
@@ -252,18 +281,24 @@ func TestC15_ClientAssertions(t *testing.T) {
 			}
 			sendClientID := rapid.Bool().Draw(rt, "sendClientID")
 			tok, fatal := buildClientAssertion(rt, sp, jti, liveUsed, sendClientID)
-			form := url.Values{"grant_type": {"client_credentials"}, "scope": {"a"}, "client_assertion_type": {assertionType}, "client_assertion": {tok}}
-			if sendClientID {
-				form.Set("client_id", "jwt-client")
+			where := rapid.SampledFrom(endpoints).Draw(rt, "endpoint")
+			if where == "device_authorization" && !sendClientID {
+				// the device authorization endpoint compares the mandatory client_id parameter with the authenticated client
+				where = "token"
 			}
-			tr := w.Token(form, h.Auth{}, h.TokenOpts{})
-			log = append(log, fmt.Sprintf("present key=%s alg=%s kid=%s defects=%v -> %v (reference: must-refuse reasons %v)", sp.key, sp.alg, sp.kid, sp.defects, tr.Err, fatal))
-			shape = append(shape, fmt.Sprintf("%s/%s/%s/%v", sp.key, sp.alg, sp.kid, sp.defects))
+			ok, perr := presentAt(where, tok, sendClientID)
+			tr := struct {
+				Err h.ErrInfo
+				ok  bool
+			}{perr, ok}
+			log = append(log, fmt.Sprintf("present at %s key=%s alg=%s kid=%s defects=%v -> %v (reference: must-refuse reasons %v)", where, sp.key, sp.alg, sp.kid, sp.defects, tr.Err, fatal))
+			shape = append(shape, fmt.Sprintf("%s/%s/%s/%s/%v", where, sp.key, sp.alg, sp.kid, sp.defects))
+			h.Label("endpoint=" + where)
 			if len(fatal) == 1 {
 				nontrivial = true
 				h.Label("one-defect:" + fatal[0])
 			}
-			if tr.OK() {
+			if tr.ok {
 				h.Label("accepted")
 				_, cl, _ := h.DecodeJWT(tok)
 				if j, ok := cl["jti"].(string); ok {
